@@ -121,6 +121,7 @@ class Engine(FsMixin, ExprMixin, StmtMixin, CallMixin, SpecMixin, BuiltinMixin, 
         self.glob_results = []
         self.seq_facts = {}     # name of a sequence constant -> [fn(k) -> z3 Bool]: element-wise facts, instantiated on access
         self.sorted_info = {}
+        self._starred_calls = set()
         self.branch_cov = {}
         self._rel_of = getattr(self, '_rel_of', {})
         self.covered_lines = set()
